@@ -5,6 +5,16 @@ ROOT = os.path.dirname(os.path.dirname(os.path.abspath(__file__)))
 
 # id -> (category, technique, level text, level note, design ref)
 CLAIMED = {
+ "C01": ("exploration",
+         "differential property testing: grammar-generated GRL rule sets and fact stores (proptest-driven, shrunk) judged by an independent tri-state reference evaluator (REF) that runs the pass itself; plus an exhaustive operator x value-kind sweep",
+         "Firing sequence, store after every firing, final store and counters are compared with REF for hundreds of thousands of generated programs per run, through the GRL parser and through directly built Rule values, via execute_with_callback and execute. Detects fired-although-false, not-fired-although-true and wrong assignment values for the typed core of GRL on the domain where the documentation defines the semantics. No claim beyond the generated sizes; cases REF calls undefined are counted, not judged.",
+         "Trusts REF (harness/src/typed.rs, written from docs and the statement; undefined classes in DESIGN.md §4.1). Exists/forall/accumulate/function-call conditions are outside the typed core.",
+         "DESIGN.md §6 C01, §4.1"),
+ "C03": ("exploration",
+         "differential property testing of looping rule sets (generated counters, always-true rules, toggles, chains) against a multi-pass REF interpreter with no-loop, plus fixpoint re-evaluation and a termination watchdog",
+         "For every generated program and every max_cycles in 0..=64: the call returns (120 s watchdog in a monitor process), cycle_count <= max_cycles, rules_fired = callbacks, the pass count / firing sequence / final facts equal REF's, and when the engine stops early no eligible rule is true on its own final facts. Both execute_with_callback and execute are driven.",
+         "Trusts REF; termination means 'returns within the 120 s watchdog'; wall-clock timeout disabled as the quantifier says.",
+         "DESIGN.md §6 C03"),
  "C13": ("exploration",
          "model-based property testing (proptest-driven byte strings decoded into timestamp sequences + exhaustive small-scope enumeration) against an executable watermark/late-data model",
          "Every prefix of every generated sequence is compared with a model written from the statement (watermark value and monotonicity, accepted/side-output/dropped routing, statistics, conservation). Random search over lengths up to 12 plus complete enumeration of short sequences over a 6-value domain for 20 configurations; bounded by those sizes, no claim beyond them.",
